@@ -20,6 +20,12 @@ def main():
         translate.run(None)
     except translate.TranslateError as ex:
         print("translator:", ex)
+    # generated files that are not written by translate.py (PrimFloat twins of translated kernels, the flag table of C06)
+    for modname, fn in (("c07", "gen_float_twin"), ("c19", "gen_float_twin"), ("c06", "gen_flags")):
+        try:
+            getattr(importlib.import_module(modname), fn)()
+        except Exception as ex:  # noqa
+            print("generator %s.%s: %s" % (modname, fn, str(ex)[-300:]))
     vlib.coq_setup()
     rc, out = vlib.sh("timeout 3000 make -k -j%d" % vlib.NCPU, cwd=vlib.COQ, timeout=3100)
     print(out[-1500:])
